@@ -22,6 +22,7 @@ func genAll() {
 	genDecNode()
 	genImportsSrc()
 	genErrProp()
+	genSaveSrc()
 }
 
 // ---------------------------------------------------------------------------------
